@@ -76,6 +76,32 @@ def gen_cases(rng, n):
     return out
 
 
+def wide_cases(rng, n):
+    """many requested labels (15-30) drawn from a float grid or sparse integer ids, with repeated UNREQUESTED labels in the data"""
+    out = []
+    for _ in range(n):
+        kind = rng.choice(["float-grid", "sparse-int"])
+        universe = [x * 0.5 for x in range(-10, 60)] if kind == "float-grid" else [x * 1000 + 7 for x in range(0, 70)]
+        nexp = rng.randint(15, 30)
+        expected = sorted(rng.sample(universe, nexp))
+        unrequested = [u for u in universe if u not in expected]
+        m = rng.randint(20, 45)
+        pool = rng.sample(expected, k=rng.randint(3, 8)) + rng.sample(unrequested, k=rng.randint(2, 5))
+        labels = [rng.choice(pool) for _ in range(m)]
+        if rng.random() < 0.5:
+            rng.shuffle(expected)
+        c = {"func": rng.choice(["sum", "count", "nanmax", "mean", "min"]), "vals": [rng.choice(G.ALPHA_FINITE) for _ in range(m)],
+             "labels": labels, "expected": expected, "fill_value": rng.choice([-7, 0, "nan"]), "engine": rng.choice(["numpy", "flox"])}
+        if rng.random() < 0.3:
+            c["min_count"] = 2
+        plan = rng.choice(["eager", "map-reduce", "cohorts"])
+        if plan != "eager":
+            c["chunks"] = [list(G.random_composition(rng, m, 4))]
+            c["method"] = plan
+        out.append(c)
+    return out
+
+
 def nontrivial(case):
     labs = {x for x in case["labels"] if x != "nan"}
     ex = set(case["expected"])
@@ -85,7 +111,7 @@ def nontrivial(case):
 def run(run: C.Run):
     rng = random.Random(run.seed)
     proofs_ok = P.front(run, translators=("registry",))
-    cases = F.corpus("C05") + gen_cases(rng, 6000 if run.tier == "thorough" else 1800)
+    cases = F.corpus("C05") + gen_cases(rng, 6000 if run.tier == "thorough" else 1600) + wide_cases(rng, 1500 if run.tier == "thorough" else 250)
     R.check_reduce_cases(run, cases, "C05", nontrivial, grouped_fn=grouped_fn, vs_eager=False, full=True)
     if not proofs_ok and not run.violations:
         run.violation({"property": "C05", "kind": "proof obligation no longer checks", "failed": P.failed_obligations(run)},
